@@ -12,7 +12,7 @@ theorem flipSq_lt {s : Nat} (h : s < 64) : flipSq s < 64 := by
   exact Nat.xor_lt_two_pow (n := 6) h (by decide)
 
 /-- Bit `i` of the byte-swapped board is bit `i ^^^ 56` of the board (64-way case split). -/
-theorem getLsbD_flipBB (b : BB) (i : Nat) (h : i < 64) :
+theorem flipBB_getLsbD_xor (b : BB) (i : Nat) (h : i < 64) :
     (flipBB b).getLsbD i = b.getLsbD (i ^^^ 56) := by
   unfold flipBB
   simp only [BitVec.getLsbD_or, BitVec.getLsbD_and, BitVec.getLsbD_shiftLeft,
@@ -20,27 +20,27 @@ theorem getLsbD_flipBB (b : BB) (i : Nat) (h : i < 64) :
   iterate 64 (rcases i with _ | i; · simp [BitVec.getLsbD_of_ge])
   omega
 
-theorem getLsbD_flipBB' (b : BB) (i : Nat) (h : i < 64) :
-    (flipBB b).getLsbD i = b.getLsbD (flipSq i) := getLsbD_flipBB b i h
+theorem flipBB_getLsbD_flipSq (b : BB) (i : Nat) (h : i < 64) :
+    (flipBB b).getLsbD i = b.getLsbD (flipSq i) := flipBB_getLsbD_xor b i h
 
 /-- `swap_bytes` is an involution. -/
-theorem flipBB_flipBB (b : BB) : flipBB (flipBB b) = b := by
+theorem flipBB_involutive (b : BB) : flipBB (flipBB b) = b := by
   apply BitVec.eq_of_getLsbD_eq
   intro i hi
-  rw [getLsbD_flipBB' _ i hi, getLsbD_flipBB' _ _ (flipSq_lt hi)]
+  rw [flipBB_getLsbD_flipSq _ i hi, flipBB_getLsbD_flipSq _ _ (flipSq_lt hi)]
   exact congrArg b.getLsbD (flipSq_flipSq i)
 
 theorem flipBB_zero : flipBB 0#64 = 0#64 := by decide
 
-theorem flipBB_and (a b : BB) : flipBB (a &&& b) = flipBB a &&& flipBB b := by
+theorem flipBB_and_distrib (a b : BB) : flipBB (a &&& b) = flipBB a &&& flipBB b := by
   apply BitVec.eq_of_getLsbD_eq
   intro i hi
-  simp only [BitVec.getLsbD_and, getLsbD_flipBB _ i hi]
+  simp only [BitVec.getLsbD_and, flipBB_getLsbD_xor _ i hi]
 
-theorem flipBB_or (a b : BB) : flipBB (a ||| b) = flipBB a ||| flipBB b := by
+theorem flipBB_or_distrib (a b : BB) : flipBB (a ||| b) = flipBB a ||| flipBB b := by
   apply BitVec.eq_of_getLsbD_eq
   intro i hi
-  simp only [BitVec.getLsbD_or, getLsbD_flipBB _ i hi]
+  simp only [BitVec.getLsbD_or, flipBB_getLsbD_xor _ i hi]
 
 /-- `count` as a `countP` over the 64 squares. -/
 theorem count_eq_countP (b : BB) : count b = (List.range 64).countP (fun i => b.getLsbD i) := by
@@ -58,7 +58,7 @@ theorem count_flipBB (b : BB) : count (flipBB b) = count b := by
     apply List.countP_congr
     intro x hx
     have hx' : x < 64 := List.mem_range.mp hx
-    simp only [Function.comp, getLsbD_flipBB' b x hx']
+    simp only [Function.comp, flipBB_getLsbD_flipSq b x hx']
   rw [h1, ← List.countP_map]
   exact range64_map_flipSq_perm.countP_eq _
 
@@ -68,7 +68,7 @@ namespace Position
 theorem flip_flip (p : Position) : p.flip.flip = p := by
   cases p with
   | mk c0 c1 p0 p1 p2 p3 p4 p5 hm fm bl ep uK uQ tK tQ f0 f1 f2 f3 hash frc =>
-    simp only [flip, flipBB_flipBB, Bool.not_not, Option.map_map]
+    simp only [flip, flipBB_involutive, Bool.not_not, Option.map_map]
     congr
     cases ep with
     | none => rfl
